@@ -531,7 +531,13 @@ pub fn supervisor_main(prop: &mut dyn Prop, tier: Tier, seed: u64, make_args: &d
                 }
                 if let Some(m) = v["extra"].as_object() {
                     for (k, val) in m {
-                        // numeric extras are summed, others keep the first
+                        // `max_*` extras take the maximum, other numeric extras are summed, others keep the first
+                        if k.starts_with("max_") {
+                            let a = extra.get(k).and_then(|x| x.as_f64()).unwrap_or(f64::MIN);
+                            let b = val.as_f64().unwrap_or(f64::MIN);
+                            extra.insert(k.clone(), json!(a.max(b)));
+                            continue;
+                        }
                         match (extra.get(k).and_then(|x| x.as_u64()), val.as_u64()) {
                             (Some(a), Some(b)) => {
                                 extra.insert(k.clone(), json!(a + b));
